@@ -7,6 +7,7 @@ compared with the single-pass reference model of gvmon/models/c16_merge.py and, 
 independent position-set union.  The same objects (and the objects merge() yielded) are merged again.  merge_all is
 judged on an independent content dump of the database, children_bp against summed lengths / union sizes.
 """
+import itertools
 import os
 from collections import Counter
 
@@ -22,7 +23,13 @@ RULE = ("merge: every multiset of <= 3 (quick) / <= 4 (thorough) of the 36 inter
         "thresholds 0..5 and five reflexive custom predicates; plus random lists of 1..12 intervals as Feature objects or "
         "read from a GFF3 database; each followed by merging the same objects again (same and other criteria) and by "
         "merging the yielded objects; merge_all on random GFF3 databases x tie-insensitive criteria x exclude_components x "
-        "featuretype groups; children_bp on gene/transcript/exon databases. non-trivial = the model has >= 1 multi-member "
+        "featuretype groups; children_bp on gene/transcript/exon databases (exons listing parents of one or several levels, "
+        "so that a child is related to the queried feature at 1, 2 or 3 levels at once); shaped lists / databases: a long "
+        "interval followed by shorter ones inside it that overlap, touch or lie detached from their predecessor, uniform or "
+        "with inner features on another seqid / strand / type, under the default criteria, exact_coordinates_only, custom and "
+        "random criteria, through merge() and merge_all (no ties on the merge order, every criterion); merge_criteria handed "
+        "over as list, tuple, set, generator expression, iter(list), itertools.chain or (one criterion) the bare callable, to "
+        "merge(), merge_all() and children_bp(). non-trivial = the model has >= 1 multi-member "
         "run and >= 1 singleton; distinct = distinct (features, criteria, follow-up) tuples")
 REQUIRED = ["merge calls", "outputs mapped to inputs by identity", "multi-member runs compared", "singleton outputs compared",
             "position-set union comparisons (default criteria)", "merged ids checked", "calls yielding >= 2 merged outputs",
@@ -30,9 +37,24 @@ REQUIRED = ["merge calls", "outputs mapped to inputs by identity", "multi-member
             "re-merge calls: objects yielded by merge()", "input str() comparisons", "database dumps compared",
             "custom criterion evaluations", "merge_all calls", "merge_all: new features compared",
             "merge_all: level-1 relations compared", "merge_all: deleted members checked", "children_bp calls",
-            "children_bp: merge=True compared with union size", "nested members compared", "adjacent members compared"]
+            "children_bp: merge=True compared with union size", "nested members compared", "adjacent members compared",
+            "children_bp calls with a child related to the queried feature at several levels: merge=False",
+            "children_bp calls with a child related to the queried feature at several levels: merge=True",
+            "merge: merge_criteria passed as tuple", "merge: merge_criteria passed as set",
+            "merge: merge_criteria passed as generator", "merge: merge_criteria passed as iter",
+            "merge: merge_criteria passed as chain", "merge: merge_criteria passed as callable",
+            "merge_all: merge_criteria passed as generator", "merge_all: merge_criteria passed as callable",
+            "children_bp: merge_criteria passed as generator", "children_bp: merge_criteria passed as callable",
+            "members nested in an earlier member that end after their predecessor",
+            "members nested in an earlier member that begin beyond their predecessor",
+            "rejected features lying inside the current run's extent",
+            "rejected inside the run's extent by: strand", "rejected inside the run's extent by: seqid",
+            "rejected inside the run's extent by: feature_type", "rejected inside the run's extent by: exact_coordinates_only",
+            "rejected inside the run's extent by: a custom criterion",
+            "merge_all: rejected features lying inside the current run's extent"]
 REQUIRED_CLASSES = ["merge/exhaustive uniform default", "merge/exhaustive grouped default", "merge/exhaustive criteria",
-                    "merge/random objects", "merge/random db", "merge_all/keep", "merge_all/exclude", "children_bp"]
+                    "merge/random objects", "merge/random db", "merge_all/keep", "merge_all/exclude", "children_bp",
+                    "merge/shaped objects", "merge/shaped db", "merge_all/shaped keep", "merge_all/shaped exclude"]
 ASSUMPTIONS = [
     "the shipped criteria carry no documentation beyond their names; the model re-states them as 'cur begins inside the run "
     "or within `reach` bases after it' / 'cur ends inside the run or within `reach` bases before it', with "
@@ -46,6 +68,10 @@ ASSUMPTIONS = [
     "children_bp: children tie on start only when they share the strand; merge=True is compared with the union size when "
     "children share seqid/strand/type and the criteria are the default ones, else with the single-pass model",
     "custom criteria are reflexive (true for (f, f)) as the quantifier requires",
+    "merge_criteria in any iterable form (or one bare callable) means the list of its elements; the criteria are pure, so the "
+    "order a set yields them in cannot matter; a one-shot iterator is handed to merge_all only with a single featuretype "
+    "group (whether one iterator can serve several groups is not stated: such a combination is skipped and counted)",
+    "the `multiline` argument of merge() is never passed (its semantics are not stated)",
 ]
 EXHAUSTIVE_NOTE = ("all multisets of <= 3 (quick) or <= 4 (thorough) intervals over 8 positions, both tie orders, are executed "
                    "with uniform labels under the default criteria; labellings and other criteria are sampled")
@@ -140,6 +166,42 @@ def real_criteria(ctx, desc):
     return out
 
 
+def in_form(ctx, where, crits, form):
+    """The criteria list handed over in one of the forms merge_criteria accepts."""
+    if form == "callable" and len(crits) != 1:
+        form = "list"
+    ctx.mon("%s: merge_criteria passed as %s" % (where, form))
+    if form == "tuple":
+        return tuple(crits)
+    if form == "set":
+        return set(crits)
+    if form == "generator":
+        return (c for c in crits)
+    if form == "iter":
+        return iter(crits)
+    if form == "chain":
+        k = len(crits) // 2
+        return itertools.chain(crits[:k], crits[k:])
+    if form == "callable":
+        return crits[0]
+    return crits
+
+
+def rejected_evidence(ctx, model_in, desc, prefix=""):
+    rej = []
+    M.single_pass(model_in, desc, rejected_inside=rej)
+    for _, names in rej:
+        ctx.mon(prefix + "rejected features lying inside the current run's extent")
+        for nm in set(names):
+            label = nm if nm in M_NAMES else "a custom criterion"
+            ctx.mon(prefix + "rejected inside the run's extent by: " + label)
+    return len(rej)
+
+
+M_NAMES = ("seqid", "strand", "feature_type", "exact_coordinates_only", "overlap_end_inclusive", "overlap_start_inclusive",
+           "overlap_any_inclusive", "overlap_end_threshold", "overlap_start_threshold", "overlap_any_threshold")
+
+
 def is_default(desc):
     return sorted(map(str, desc)) == sorted(M.DEFAULT) and len(desc) == 4
 
@@ -147,7 +209,10 @@ def is_default(desc):
 # -- one call of merge() judged against the model -------------------------------------------------------------------------
 def one_merge(ctx, case, db, feats, model_in, desc, step, issued, dbids):
     """Returns the list of outputs, or None when the call could not be judged further."""
-    kw = {} if (is_default(desc) and case.get("omit_criteria")) else {"merge_criteria": real_criteria(ctx, desc)}
+    if is_default(desc) and case.get("omit_criteria"):
+        kw = {}
+    else:
+        kw = {"merge_criteria": in_form(ctx, "merge", real_criteria(ctx, desc), case.get("form", "list"))}
     try:
         out = list(db.merge(iter(feats), **kw))
     except Exception as ex:
@@ -214,6 +279,10 @@ def one_merge(ctx, case, db, feats, model_in, desc, step, issued, dbids):
                 ctx.mon("nested members compared")
             if model_in[y]["start"] == max(model_in[i]["end"] for i in ms[:ms.index(y)]) + 1:
                 ctx.mon("adjacent members compared")
+        for _, beyond in M.detached_nested_members(model_in, sorted(members)):
+            ctx.mon("members nested in an earlier member that end after their predecessor")
+            if beyond:
+                ctx.mon("members nested in an earlier member that begin beyond their predecessor")
         ctx.mon("merged ids checked")
         if o.id is None:
             return bad("a merged output has no id")
@@ -224,6 +293,7 @@ def one_merge(ctx, case, db, feats, model_in, desc, step, issued, dbids):
         issued.add(o.id)
     if len(merged) >= 2:
         ctx.mon("calls yielding >= 2 merged outputs")
+    rejected_evidence(ctx, model_in, desc)
     if is_default(desc) and M.is_grouped_start_ordered(model_in):
         ctx.mon("position-set union comparisons (default criteria)")
         got_ext = sorted((o.seqid, o.strand, o.featuretype, o.start, o.end) for o in out)
@@ -343,6 +413,14 @@ def execute_merge_all(ctx, case):
     rows, ids, desc = case["feats"], case["ids"], case["criteria"]
     exclude = case["exclude_components"]
     groups = case.get("groups")
+    form = case.get("form", "list")
+    if form in G.ONE_SHOT_FORMS and groups and len(groups) > 1:
+        ctx.skip("merge_all with a one-shot iterator as merge_criteria and several featuretype groups (statement silent)")
+        return
+    if not M.tie_insensitive(desc):
+        keys = [(r[0], r[2], r[1], r[3]) for r in rows]
+        if len(set(keys)) != len(keys):
+            raise AssertionError("harness: tie-sensitive criteria generated for rows that tie on the merge order")
     dbfn = ctx.tmp(".db") if case.get("dbfile") else ":memory:"
     try:
         db = gffutils.create_db(G.gff3(rows, ids, case.get("parents")), dbfn, from_string=True)
@@ -359,9 +437,10 @@ def execute_merge_all(ctx, case):
             feats = [model_row(rows[i]) for i in sel]
             for run in M.single_pass(feats, desc):
                 runs.append([sel[j] for j in run])
+            rejected_evidence(ctx, feats, desc, prefix="merge_all: ")
         multi = [r for r in runs if len(r) > 1]
         members = set(ids[i] for r in multi for i in r)
-        kw = {"merge_criteria": real_criteria(ctx, desc), "exclude_components": exclude}
+        kw = {"merge_criteria": in_form(ctx, "merge_all", real_criteria(ctx, desc), form), "exclude_components": exclude}
         if groups:
             kw["featuretypes_groups"] = [list(g) for g in groups]
         try:
@@ -467,7 +546,10 @@ def execute_children_bp(ctx, case):
             arg = target if call["by"] == "id" else db[target]
             kw = {"child_featuretype": ctype, "merge": call["merge"]}
             if desc is not None:
-                kw["merge_criteria"] = real_criteria(ctx, desc)
+                kw["merge_criteria"] = in_form(ctx, "children_bp", real_criteria(ctx, desc), call.get("form", "list"))
+            kid_ids = set(i for r, i in zip(rows, ids) if r[2] == ctype and target in ancestors(i))
+            levels = Counter(c for p, c, lvl in map(tuple, dump0["relations"]) if p == target and c in kid_ids)
+            several = any(n > 1 for n in levels.values())
             try:
                 got = db.children_bp(arg, **kw)
             except Exception as ex:
@@ -477,6 +559,8 @@ def execute_children_bp(ctx, case):
                     ctx.violation(case, {"why": "children_bp raised %s" % type(ex).__name__, "error": repr(ex), "call": call})
                 continue
             ctx.mon("children_bp calls")
+            if several:
+                ctx.mon("children_bp calls with a child related to the queried feature at several levels: merge=%s" % bool(call["merge"]))
             crit = M.DEFAULT if desc is None else desc
             if not call["merge"]:
                 exp = M.total_length(kids)
@@ -526,6 +610,11 @@ def gen_children_bp(rng):
     rows = [[seqid, strand, "gene", 1, 200]]
     ids = ["G"]
     parents = [[]]
+    top = rng.random() < 0.3
+    if top:      # a level above the gene
+        rows.insert(0, [seqid, strand, "locus", 1, 300])
+        ids.insert(0, "S")
+        parents = [[], ["S"]]
     for t in range(nt):
         rows.append([seqid, strand, "mRNA", 1, 200])
         ids.append("T%d" % t)
@@ -534,23 +623,33 @@ def gen_children_bp(rng):
     ivs = G.random_intervals(rng, n, span=rng.choice([12, 30, 60]), distinct_starts=mixed)
     for j, (s, e) in enumerate(ivs):
         r = rng.random()
-        if r < 0.75:
+        if r < 0.55:
             par = ["T%d" % rng.randrange(nt)]
-        elif r < 0.85:
+        elif r < 0.65:
             par = ["G"]
-        else:
+        elif r < 0.78:
             par = sorted(set(["T%d" % rng.randrange(nt), "T%d" % rng.randrange(nt)]))
+        else:
+            # parents of several levels: the child is related to G (and S) at more than one level
+            par = ["T%d" % rng.randrange(nt), "G"]
+            if rng.random() < 0.3:
+                par.append("T%d" % rng.randrange(nt))
+            if top and rng.random() < 0.4:
+                par.append("S")
+            par = sorted(set(par))
+            rng.shuffle(par)
         rows.append([seqid, rng.choice(G.STRANDS) if mixed else strand, rng.choice(["exon", "exon", "exon", "CDS"]), s, e])
         ids.append("x%d" % j)
         parents.append(par)
     calls = []
-    for target in ["G"] + ["T%d" % t for t in range(nt)]:
+    for target in (["S"] if top else []) + ["G"] + ["T%d" % t for t in range(nt)]:
         for ctype in ("exon", "CDS"):
             calls.append({"of": target, "child_featuretype": ctype, "merge": False, "by": rng.choice(["id", "feature"])})
             calls.append({"of": target, "child_featuretype": ctype, "merge": True, "by": rng.choice(["id", "feature"])})
             if rng.random() < 0.5:
-                calls.append({"of": target, "child_featuretype": ctype, "merge": True, "by": "id",
-                              "criteria": G.tie_insensitive_criteria(rng)})
+                desc = G.single_tie_insensitive(rng) if rng.random() < 0.25 else G.tie_insensitive_criteria(rng)
+                calls.append({"of": target, "child_featuretype": ctype, "merge": True, "by": rng.choice(["id", "feature"]),
+                              "criteria": desc, "form": G.criteria_form(rng, desc)})
     return {"kind": "children_bp", "feats": rows, "ids": ids, "parents": parents, "calls": calls, "dbfile": rng.random() < 0.2}
 
 
@@ -573,7 +672,23 @@ def gen_merge_all(rng):
     groups = None
     if rng.random() < 0.2:
         groups = rng.choice([[["exon"], ["CDS", "gene"]], [["CDS"]], [["exon", "CDS"], ["gene", "locus"]]])
-    return {"kind": "merge_all", "feats": rows, "ids": ids, "parents": parents, "criteria": G.tie_insensitive_criteria(rng),
+    desc = G.single_tie_insensitive(rng) if rng.random() < 0.1 else G.tie_insensitive_criteria(rng)
+    return {"kind": "merge_all", "feats": rows, "ids": ids, "parents": parents, "criteria": desc,
+            "form": G.criteria_form(rng, desc, one_shot=not groups or len(groups) < 2),
+            "exclude_components": rng.random() < 0.5, "groups": groups, "dbfile": rng.random() < 0.2}
+
+
+def gen_merge_all_shaped(rng):
+    """Long-run shapes per (seqid, featuretype, strand) group, no ties on the merge order: every criterion may be used."""
+    rows = G.shaped_db_feats(rng)
+    ids = G.ids_for(rng, rows, shaped=rng.random() < 0.1)
+    r = rng.random()
+    desc = G.single_criterion(rng) if r < 0.1 else G.shaped_criteria(rng)
+    groups = None
+    if rng.random() < 0.2:
+        groups = rng.choice([[["exon"], ["CDS", "gene"]], [["CDS"]], [["exon", "CDS", "gene"]]])
+    return {"kind": "merge_all", "feats": rows, "ids": ids, "parents": [[] for _ in rows], "criteria": desc,
+            "form": G.criteria_form(rng, desc, one_shot=not groups or len(groups) < 2),
             "exclude_components": rng.random() < 0.5, "groups": groups, "dbfile": rng.random() < 0.2}
 
 
@@ -612,10 +727,12 @@ def run(ctx):
             desc = list(M.DEFAULT)
             if rng.random() < 0.6:
                 rows = G.group_then_start(rows)
+        elif r < 0.45:
+            desc = G.single_criterion(rng)
         else:
             desc = G.criteria(rng)
         case = {"kind": "merge", "source": "objects", "feats": rows, "criteria": desc, "again": rng.random() < 0.5,
-                "second": G.criteria(rng), "omit_criteria": rng.random() < 0.5}
+                "second": G.criteria(rng), "omit_criteria": rng.random() < 0.5, "form": G.criteria_form(rng, desc)}
         run_merge_case(ctx, case, "merge/random objects")
     for _ in range(ctx.budget(1200, 32000)):
         rows = G.random_feats(rng)
@@ -624,10 +741,25 @@ def run(ctx):
             rows = G.group_then_start(rows)
         shaped = rng.random() < 0.1
         case = {"kind": "merge", "source": "db", "feats": rows, "ids": G.ids_for(rng, rows, shaped=shaped), "criteria": desc,
-                "again": rng.random() < 0.5, "second": G.criteria(rng), "dbfile": rng.random() < 0.2}
+                "again": rng.random() < 0.5, "second": G.criteria(rng), "dbfile": rng.random() < 0.2,
+                "form": G.criteria_form(rng, desc)}
         if shaped:
             ctx.classes["merge/random db with ids of the form <featuretype>_<n>"] += 1
         run_merge_case(ctx, case, "merge/random db")
+    # 2b. shaped lists: a long interval with shorter ones inside it, uniform or with foreign labels inside
+    for _ in range(ctx.budget(2000, 48000)):
+        rows = G.shaped_feats(rng)
+        desc = G.shaped_criteria(rng)
+        case = {"kind": "merge", "source": "objects", "feats": rows, "criteria": desc, "again": rng.random() < 0.3,
+                "second": G.shaped_criteria(rng), "omit_criteria": rng.random() < 0.3, "form": G.criteria_form(rng, desc)}
+        run_merge_case(ctx, case, "merge/shaped objects")
+    for _ in range(ctx.budget(400, 10000)):
+        rows = G.shaped_feats(rng)
+        desc = G.shaped_criteria(rng)
+        case = {"kind": "merge", "source": "db", "feats": rows, "ids": G.ids_for(rng, rows), "criteria": desc,
+                "again": rng.random() < 0.3, "second": G.shaped_criteria(rng), "dbfile": rng.random() < 0.2,
+                "form": G.criteria_form(rng, desc)}
+        run_merge_case(ctx, case, "merge/shaped db")
     # 3. merge_all
     for _ in range(ctx.budget(1200, 32000)):
         case = gen_merge_all(rng)
@@ -635,6 +767,12 @@ def run(ctx):
         ctx.case((case["feats"], case["ids"], case["criteria"], case["exclude_components"], case["groups"]),
                  nontrivial(sorted(case["feats"], key=lambda r: (r[0], r[2], r[1], r[3])), case["criteria"]),
                  cls="merge_all/" + ("exclude" if case["exclude_components"] else "keep"))
+    for _ in range(ctx.budget(500, 12000)):
+        case = gen_merge_all_shaped(rng)
+        execute(ctx, case)
+        ctx.case((case["feats"], case["ids"], case["criteria"], case["exclude_components"], case["groups"], case["form"]),
+                 nontrivial(sorted(case["feats"], key=lambda r: (r[0], r[2], r[1], r[3])), case["criteria"]),
+                 cls="merge_all/shaped " + ("exclude" if case["exclude_components"] else "keep"))
     # 4. children_bp
     for _ in range(ctx.budget(600, 16000)):
         case = gen_children_bp(rng)
